@@ -724,6 +724,10 @@ func TestVerifLssim(t *testing.T) {
 		tan.VerifMaxLogFileSize, tan.VerifMaxManifestFileSize = 0, 0
 		if (s.flavour == "tan" || s.flavour == "tanmux") && tid%16 < 12 {
 			tan.VerifMaxLogFileSize = int64(700 + rng.Intn(4000))
+			if tid%8 < 4 {
+				// a rotation with nearly every save: most crash points fall into one
+				tan.VerifMaxLogFileSize = int64(100 + rng.Intn(500))
+			}
 			if tid%2 == 0 || tid%16 >= 8 {
 				tan.VerifMaxManifestFileSize = int64(200 + rng.Intn(1500))
 			}
